@@ -38,6 +38,10 @@ VARIANTS = {
 }
 
 
+# 16 worker processes each start their own OpenMP teams: idle threads must sleep, not spin
+DEFAULT_ENV = {"OMP_WAIT_POLICY": "passive", "GOMP_SPINCOUNT": "0", "KMP_BLOCKTIME": "0"}
+
+
 class Inconclusive(Exception):
     pass
 
@@ -151,6 +155,7 @@ def run_chunk(exe, stage, seed, tier, start, count, outdir, results):
         for k, v in stage.args.items():
             cmd += ["--arg", "%s=%s" % (k, v)]
         env = dict(os.environ)
+        env.update(DEFAULT_ENV)
         env.update(stage.env)
         tmo = max(30.0, stage.timeout_per_case * (end - i))
         t0 = time.time()
@@ -224,6 +229,7 @@ def run_single(exe, stage, seed, tier, case, outdir, results):
     for k, v in stage.args.items():
         cmd += ["--arg", "%s=%s" % (k, v)]
     env = dict(os.environ)
+    env.update(DEFAULT_ENV)
     env.update(stage.env)
     try:
         p = subprocess.run(cmd, env=env, stdout=subprocess.PIPE, stderr=subprocess.PIPE,
